@@ -192,6 +192,7 @@ class VectorProperty(Property):
 
     native = None  # name of the native check
     contracts = ()  # [(modname, [keys])]
+    exclude = ("*/schema:*",)  # schema validity of JSON documents is C10's business
 
     wf = False  # include the functions that establish the representation invariant
 
@@ -331,6 +332,9 @@ class C07(VectorProperty):
 
 
 class C08(VectorProperty):
+    def jobs(self, tier):
+        return VectorProperty.jobs(self, tier) + lemma_jobs("lemmas.regex", "emitted_in_official", [{"version": v} for v in ("2", "3.0", "3.1", "4")])
+
     id = "C08"
     native = "C08"
     trusted = ("A0", "A1", "A4", "A7", "FD")
@@ -349,6 +353,11 @@ class C09(VectorProperty):
 
 class C10(VectorProperty):
     wf = True
+    exclude = ()
+
+    def jobs(self, tier):
+        return VectorProperty.jobs(self, tier) + lemma_jobs("lemmas.regex", "grammar_in_official", [{"version": v} for v in ("2", "3.0", "3.1", "4")])
+
     id = "C10"
     native = "C10"
     trusted = ("A0", "A6", "A7", "FD")
@@ -699,4 +708,179 @@ class C06(VectorProperty):
         return jobs, "%d random vectors per version" % n
 
 
-PROPERTIES = {p.id: p() for p in [C01, C02, C03, C04, C05, C06, C07, C08, C09, C10, C11, C12, C14, C15, C18, C19]}
+def builder_sessions(rng, n):
+    from spec import v4 as S4
+
+    out = []
+    specs = {2: S2, 3.0: S3, 3.1: S3, 4.0: S4}
+    for _ in range(n):
+        version = rng.choice([2, 3.0, 3.1, 4.0])
+        sp = specs[version]
+        allm = rng.random() < 0.6
+        metrics = list(sp.ORDER) if allm else list(sp.BASE)
+        answers = []
+        for m in metrics:
+            # some rejected answers first (illegal, empty where not legal, another metric's value)
+            while rng.random() < 0.25:
+                answers.append(rng.choice(["zz", "", " ", "?", "NDX", "x y", rng.choice(sp.VALUES[rng.choice(metrics)])]))
+            v = rng.choice(sp.VALUES[m])
+            style = rng.random()
+            if style < 0.25:
+                v = v.lower()
+            elif style < 0.4:
+                v = "  " + v + " "
+            elif style < 0.5 and v in ("X", "ND"):
+                v = ""
+            answers.append(v)
+        if rng.random() < 0.1:
+            answers = answers[: rng.randrange(len(answers))]
+        out.append({"check": "C16", "input": {"version": version, "all_metrics": allm, "answers": answers}})
+    return out
+
+
+class C16(Property):
+    id = "C16"
+    trusted = ("A0", "A1", "A5")
+    technique = "contract on ask_interactively with ghost stdin/stdout; the answer loop verified as a block contract for one arbitrary iteration; ground selectability executions of the real loop"
+
+    def jobs(self, tier):
+        import contracts.interactive as CI
+
+        return (contract_jobs("contracts.interactive", [("interactive", "ask_interactively")])
+                + lemma_jobs("contracts.interactive", "selectable", [{"version": v} for v in (2, 3.0, 3.1, 4.0)]))
+
+    def concretize(self, o):
+        return []
+
+    def widen(self, o, tier):
+        return builder_sessions(random.Random(1), 3000)
+
+    def bounded(self, tier, seed):
+        n = 3000 if tier == "quick" else 40000
+        return builder_sessions(random.Random(seed), n), "%d random scripted sessions (all versions, valid / invalid / empty / any-case answers, premature EOF)" % n
+
+
+def text_jobs(rng, n):
+    out = []
+    delims = [" ", ".", ",", "\n", "(", ")", "1", "-", "_", '"', "3", ";", "=", "\t", "é"]
+    filler = ["", "see", "CVSS", "CVSS:3", "score 7.5", "AV:N/AC:L", "vector:", "xx/yy:zz" * 5, "A" * 30, "CVSS:3.1/", "http://a/b:c"]
+    for _ in range(n):
+        parts = []
+        expected = []
+        for _ in range(rng.randrange(1, 5)):
+            kind = rng.random()
+            if kind < 0.45:
+                v = v2_random(rng, 1)[0]
+                ver = "2"
+            else:
+                v = v3_random(rng, 1)[0]
+                ver = "3"
+            mode = rng.random()
+            if mode < 0.15:
+                # equivalent respelling of an earlier vector: must not produce a duplicate
+                fs = v.split("/")
+                head, body = ([fs[0]], fs[1:]) if ver == "3" else ([], fs)
+                rng.shuffle(body)
+                parts.append(rng.choice(filler) + rng.choice(delims) + v + rng.choice(delims) + "/".join(head + body))
+                expected.append((ver, v))
+                continue
+            if mode < 0.3:
+                # near-valid candidate: must simply be ignored
+                parts.append(rng.choice(delims) + v[:-1] + rng.choice(["", "/", "Q", ":"]))
+                continue
+            if mode < 0.4:
+                # glued to vector-like characters: no completeness claim
+                parts.append("x" + v + rng.choice(["", "y", "/", ":"]))
+                continue
+            parts.append(rng.choice(filler) + rng.choice(delims) + v + rng.choice(delims + [""]))
+            if parts[-1].endswith(v):
+                parts[-1] += rng.choice(delims)
+            expected.append((ver, v))
+        text = rng.choice(delims).join(parts)
+        # only claim completeness for vectors that are really delimited on both sides in the final text
+        import re as _re
+
+        exp2 = []
+        for ver, v in expected:
+            for m in _re.finditer(_re.escape(v), text):
+                a, b = m.start(), m.end()
+                left = text[a - 1] if a > 0 else " "
+                right = text[b] if b < len(text) else " "
+                if not _re.match("[A-Za-z:/]", left) and not _re.match("[A-Za-z:/]", right):
+                    exp2.append((ver, v))
+                    break
+        out.append({"check": "C13", "input": {"text": text, "delimited": exp2}})
+    return out
+
+
+class C13(Property):
+    id = "C13"
+    trusted = ("A0", "A1", "A4", "A7")
+    technique = "contract on parse_cvss_from_text (opaque accumulator, findall contract) + constructor raises-clauses + regular-language lemmas on the pattern extracted from parser.py (z3 regex)"
+    exclude = ("*/schema:*",)
+
+    def jobs(self, tier):
+        jobs = contract_jobs("contracts.textparser", [("parser", "parse_cvss_from_text")])
+        jobs += lemma_jobs("lemmas.regex", "parser_complete", [{}])
+        for modname, keys in [("contracts.parse", PARSE_V23[:2]), ("contracts.init", [k for k in INIT_V23 if k[0] != "cvss4"]),
+                              ("contracts.cvss3", V3_SCORING + [("cvss3", "CVSS3.__eq__"), ("cvss3", "CVSS3.clean_vector")]),
+                              ("contracts.cvss2", V2_SCORING + [("cvss2", "CVSS2.__eq__"), ("cvss2", "CVSS2.clean_vector")])]:
+            jobs += contract_jobs(modname, keys)
+        return jobs
+
+    def concretize(self, o):
+        w = (o.get("model") or {}).get("witness")
+        if isinstance(w, str):
+            return [{"check": "C13", "input": {"text": " %s " % w, "delimited": []}}]
+        return []
+
+    def widen(self, o, tier):
+        return text_jobs(random.Random(1), 3000)
+
+    def bounded(self, tier, seed):
+        n = 4000 if tier == "quick" else 60000
+        return text_jobs(random.Random(seed), n), "%d random texts (valid, near-valid, respelled, glued vectors between random fillers/delimiters)" % n
+
+
+def cli_jobs(rng, n):
+    out = []
+    for _ in range(n):
+        ver = rng.choice([None, "2", "3", "4"])
+        flags = [f for f in ("-a", "-n", "-j") if rng.random() < 0.4]
+        kind = rng.random()
+        gen = {None: v3_random, "2": v2_random, "3": v3_random, "4": v4_random}[ver]
+        vec = gen(rng, 1)[0]
+        if ver == "3":
+            vec = vec.replace("CVSS:3.1", "CVSS:3.0")
+        if kind < 0.25:
+            vec = rng.choice(["garbage", "AV:N", "CVSS:3.1/AV:N", "CVSS:4.0/AV:N/AC:L", vec[:-1], vec + "/", vec.replace("/", "//", 1), v2_random(rng, 1)[0], v4_random(rng, 1)[0]])
+        argv = ([("-" + ver)] if ver else []) + flags
+        stdin = None
+        if rng.random() < 0.2:
+            stdin = "\n".join(rng.choice(["N", "L", "H", "", "x", "P", "A", "C", "U"]) for _ in range(rng.randrange(0, 40)))
+        else:
+            argv += ["-v", vec]
+        out.append({"check": "C17", "input": {"argv": argv, "stdin": stdin}})
+    return out
+
+
+class C17(Property):
+    id = "C17"
+    trusted = ("A0", "A1", "A5")
+    technique = "contract on cvss_calculator.main with modelled argparse namespace, ghost stdout and the callee contracts of the constructors, accessors and the builder"
+
+    def jobs(self, tier):
+        return contract_jobs("contracts.cli", [("cvss_calculator", "main")])
+
+    def concretize(self, o):
+        return []
+
+    def widen(self, o, tier):
+        return cli_jobs(random.Random(1), 400)
+
+    def bounded(self, tier, seed):
+        n = 300 if tier == "quick" else 4000
+        return cli_jobs(random.Random(seed), n), "%d random command lines (subprocess runs of python -m cvss.cvss_calculator)" % n
+
+
+PROPERTIES = {p.id: p() for p in [C01, C02, C03, C04, C05, C06, C07, C08, C09, C10, C11, C12, C13, C14, C15, C16, C17, C18, C19]}
